@@ -211,8 +211,10 @@ def node_weights_wide(draw, n):
     populations ...)."""
     base = draw(st.lists(st.integers(1, 40), min_size=n, max_size=n))
     den = draw(st.sampled_from([8.0, 8.0, 7.0]))
-    scale = draw(st.sampled_from([1.0, 1.0, 1.0, 1e-9, 1e-6, 1e-3, 1e3, 1e6,
-                                  1e9]))
+    # (1e-8: the weights then straddle numpy's default absolute tolerance,
+    # which a guard like np.isclose(w, 0) silently applies)
+    scale = draw(st.sampled_from([1.0, 1.0, 1.0, 1e-9, 1e-8, 1e-6, 1e-3, 1e3,
+                                  1e6, 1e9]))
     return [k / den * scale for k in base]
 
 
